@@ -416,6 +416,10 @@ func (cs *Contracts) parseFile(path, src string) error {
 				ae.Cond, ae.Body = b.X, b.Y
 			}
 			cur.AtEvals = append(cur.AtEvals, ae)
+		case "no-store":
+			cur.NoStores = append(cur.NoStores, strings.Fields(rest)...)
+		case "full-loop":
+			cur.FullLoops = append(cur.FullLoops, rest)
 		case "on-call":
 			f := strings.Fields(rest)
 			if len(f) < 2 {
